@@ -42,14 +42,24 @@ type stCmd struct {
 	N int  `json:"n,omitempty"`
 	// remove: Ref = ordinal of the add command whose document is removed (-1 = an id never added)
 	Ref int `json:"ref,omitempty"`
-	// search: vec | txt | md
+	// search: vec | txt | md | mdg (metadata filter GROUPS only) | mdgf (groups + filters)
 	Q string `json:"q,omitempty"`
+	// search: 0 = k far larger than the store; 1 = k = size of the last answer of this
+	// modality (exactly "large enough"); 2 = that + 1
+	K int `json:"k,omitempty"`
+	// badadd: 1 = unsupported metadata value type, 2 = wrong vector dimension, 3 = zero vector
+	// under cosine; X = through AddWithID
+	Bad int  `json:"bad,omitempty"`
+	X   bool `json:"x,omitempty"`
+	// addid: 1 = the boundary id 0, 2 = math.MaxUint32
+	Sp int `json:"sp,omitempty"`
 	// bg: which worker takes one step: "f" | "c"
 	W string `json:"w,omitempty"`
 }
 
 type stCase struct {
 	Vec      string  `json:"vec"` // none | flat | hnsw | ivf
+	Cosine   bool    `json:"cosine,omitempty"`
 	Text     bool    `json:"text"`
 	Meta     bool    `json:"meta"`
 	Dim      int     `json:"dim"`
@@ -303,6 +313,8 @@ type stExec struct {
 	h       *hookSched
 	store   *comet.PersistentHybridIndex
 	adds    []uint32 // ids acknowledged, by ordinal of the add command
+	addOK   []bool
+	lastN   map[string]int // size of the last answer per modality
 	nAdd    int
 	nlist   int
 	fullLen map[string]int // crash: plaintext length of the complete version of a file
@@ -342,23 +354,27 @@ func (e *stExec) templates() (comet.VectorIndex, comet.TextIndex, comet.Metadata
 	var v comet.VectorIndex
 	var t comet.TextIndex
 	var m comet.MetadataIndex
+	metric := comet.Euclidean
+	if e.c.Cosine {
+		metric = comet.Cosine
+	}
 	switch e.c.Vec {
 	case "flat":
-		x, err := comet.NewFlatIndex(e.c.Dim, comet.Euclidean)
+		x, err := comet.NewFlatIndex(e.c.Dim, metric)
 		if err != nil {
 			return nil, nil, nil, err
 		}
 		v = x
 	case "hnsw":
 		mm, efc, efs := comet.DefaultHNSWConfig()
-		x, err := comet.NewHNSWIndex(e.c.Dim, comet.Euclidean, mm, efc, efs)
+		x, err := comet.NewHNSWIndex(e.c.Dim, metric, mm, efc, efs)
 		if err != nil {
 			return nil, nil, nil, err
 		}
 		v = x
 	case "ivf":
 		e.nlist = 2
-		x, err := comet.NewIVFIndex(e.c.Dim, e.nlist, comet.Euclidean)
+		x, err := comet.NewIVFIndex(e.c.Dim, e.nlist, metric)
 		if err != nil {
 			return nil, nil, nil, err
 		}
@@ -713,12 +729,31 @@ func stIdsLine(res []comet.HybridSearchResult) string {
 	return strings.Join(s, ",")
 }
 
-func (e *stExec) search(q string) {
+func (e *stExec) search(q string, kmode int) {
 	e.h.mu.Lock()
 	e.h.turns, e.h.loads = nil, 0
 	e.h.mu.Unlock()
-	s := e.store.NewSearch().WithK(100000)
+	if e.lastN == nil {
+		e.lastN = map[string]int{}
+	}
+	k := 100000
+	base := q
+	if strings.HasPrefix(q, "md") {
+		base = "md"
+	}
+	if kmode == 1 || kmode == 2 {
+		k = e.lastN[base] + kmode - 1
+		if k <= 0 {
+			k = 1
+		}
+	}
+	s := e.store.NewSearch().WithK(k)
+	grp := &comet.FilterGroup{Filters: []comet.Filter{comet.Eq("c", "y")}, Logic: comet.AND}
 	switch q {
+	case "mdg":
+		s = s.WithMetadataGroups(grp)
+	case "mdgf":
+		s = s.WithMetadataGroups(grp).WithMetadata(comet.Eq("c", "y"))
 	case "vec":
 		s = s.WithVector(e.docVector(1))
 		if e.c.Vec == "ivf" {
@@ -738,14 +773,17 @@ func (e *stExec) search(q string) {
 		turns = "-"
 	}
 	if err != nil {
-		k := storeErr(err)
+		kk := storeErr(err)
 		if strings.Contains(err.Error(), "specified but no") {
-			k = "noindex"
+			kk = "noindex"
 		}
-		e.emit("op search %s turns=%s loads=%d => err %s", q, turns, loads, k)
+		e.emit("op search %s k=%d turns=%s loads=%d => err %s", q, k, turns, loads, kk)
 		return
 	}
-	e.emit("op search %s turns=%s loads=%d => ok %s", q, turns, loads, stIdsLine(res))
+	if kmode == 0 {
+		e.lastN[base] = len(res)
+	}
+	e.emit("op search %s k=%d turns=%s loads=%d => ok %s", q, k, turns, loads, stIdsLine(res))
 }
 
 func (e *stExec) add(cmd stCmd, explicit bool) {
@@ -771,22 +809,74 @@ func (e *stExec) add(cmd stCmd, explicit bool) {
 	var err error
 	fwIdle := e.isIdle(&e.h.fw)
 	if explicit {
-		id = explicitIDBase + e.nextExp
-		e.nextExp++
+		switch cmd.Sp {
+		case 1:
+			id = 0
+		case 2:
+			id = ^uint32(0)
+		default:
+			id = explicitIDBase + e.nextExp
+			e.nextExp++
+		}
 		err = e.store.AddWithID(id, vec, text, meta)
 	} else {
 		id, err = e.store.Add(vec, text, meta)
 	}
 	if err != nil {
 		e.adds = append(e.adds, 0)
+		e.addOK = append(e.addOK, false)
 		e.emit("op add %d %d %d %d => %s", id, vd, tl, mc, storeErr(err))
 		return
 	}
 	e.adds = append(e.adds, id)
+	e.addOK = append(e.addOK, true)
 	e.emit("op add %d %d %d %d => ok", id, vd, tl, mc)
 	if e.store.VerifTotalMemtableSize() >= e.c.FlushThr {
 		e.signalled(&e.h.fw, fwIdle, "fwake")
 	}
+}
+
+// badAdd issues an Add / AddWithID that the store must reject — and that must leave nothing
+// behind (a rotation may still happen first: the queue makes room before it tries).
+func (e *stExec) badAdd(cmd stCmd) {
+	n := e.nAdd*3 + cmd.N
+	e.nAdd++
+	var vec []float32
+	var text string
+	var meta map[string]interface{}
+	if e.c.Vec != "none" && e.c.Vec != "" {
+		vec = e.docVector(n)
+	}
+	text = docText(n)
+	if e.c.Meta {
+		meta = docMeta(n)
+	}
+	switch cmd.Bad {
+	case 1:
+		if meta == nil {
+			meta = map[string]interface{}{}
+		}
+		meta["tags"] = []string{"a", "b"}
+	case 2:
+		vec = append(e.docVector(n), 1)
+	case 3:
+		vec = make([]float32, e.c.Dim)
+	}
+	vd, tl, mc := len(vec), len(text), len(meta)
+	var err error
+	if cmd.X {
+		err = e.store.AddWithID(explicitIDBase+800000+uint32(e.nAdd), vec, text, meta)
+	} else {
+		_, err = e.store.Add(vec, text, meta)
+	}
+	out := "ok"
+	if err != nil {
+		out = "err"
+		if storeErr(err) == "closed" {
+			out = "closed"
+		}
+	}
+	e.emit("op badadd %d %d %d => %s", vd, tl, mc, out)
 }
 
 func (e *stExec) segIDs() map[uint64]bool {
@@ -842,7 +932,7 @@ func (e *stExec) do(cmd stCmd) {
 		e.add(cmd, true)
 	case "remove":
 		id := explicitIDBase + 900000 + uint32(len(e.adds))
-		if cmd.Ref >= 0 && cmd.Ref < len(e.adds) && e.adds[cmd.Ref] != 0 {
+		if cmd.Ref >= 0 && cmd.Ref < len(e.adds) && e.addOK[cmd.Ref] {
 			id = e.adds[cmd.Ref]
 		}
 		err := e.store.Remove(id)
@@ -861,7 +951,9 @@ func (e *stExec) do(cmd stCmd) {
 		e.emit("op trigger => ok")
 		e.signalled(&e.h.cw, cwIdle, "cwake")
 	case "search":
-		e.search(cmd.Q)
+		e.search(cmd.Q, cmd.K)
+	case "badadd":
+		e.badAdd(cmd)
 	case "bg":
 		e.stepWorker(cmd.W == "f")
 	case "close":
